@@ -173,6 +173,14 @@ func genBuiltinCalls(stream string, seed uint64, perFn int) []GenCase {
 		add(fmt.Sprintf("return [replace(\"abc\", %s, \"x\"), match(\"abc\", %s)];", pat, pat), "invalid-pattern")
 		add(fmt.Sprintf("if (\"abc\" ~= %s) { return 1; } return replace(Name, %s, \"\");", pat, pat), "invalid-pattern")
 	}
+	// case-insensitive sorting folds to LOWER case: characters between `Z` and `a` ([ \ ] ^ _ `) sort after the letters' upper forms
+	for _, arr := range []string{"[\"b\", \"_x\", \"A\"]", "[\"a\", \"Z\", \"^\", \"[\", \"_\", \"`\", \"z\", \"A\"]", "[\"B_\", \"b^\", \"Ba\", \"bA\", \"b_\"]", "[\"é\", \"É\", \"e\", \"Z\", \"_\"]"} {
+		for _, fn := range []string{"sort", "reverse"} {
+			for _, flag := range []string{"", ", true", ", false"} {
+				add(fmt.Sprintf("x = %s; y = %s(x%s); return [y, x];", arr, fn, flag), "sort-case-fold")
+			}
+		}
+	}
 	// trim removes every kind of white space Unicode knows (as strings.TrimSpace does), at both ends, and nothing else
 	for _, ws := range []string{"\f", "\v", "\u00a0", "\u0085", "\u2003", "\u2028", "\u3000", "\u1680", "\t \r\n", "\u200b", "\ufeff", "_"} {
 		for _, body := range []string{"x", "a" + ws + "b", ""} {
